@@ -239,6 +239,11 @@ def run_case(case: dict) -> RunResult:
         # a control document stored in another encoding is only expected to parse where the bytes reach the XML parser undecoded
         # (binary handle); through a text-mode handle or read_text() the UTF-8 decode in front of the parser may refuse it
         control_must_parse = enc == "utf-8" or (hmode == "rb" and entry != "hdd")
+        if entry == "hdd" and (case["variant"] + flavour) % 2 == 1:
+            # Parallels keeps a previous copy next to the descriptor; a clean one is there for any fallback to find
+            bf = SimFile()
+            bf.write(0, make_doc(entry, ("control_plain", 0, "none"), world.root, 0, flavour)[0].encode())
+            world.fs.add(d + "/" + fname + ".Backup", bf)
         honey = SimFile()
         honey.write(0, b"TOP-SECRET-HONEYPOT\n")
         world.fs.add(world.root + "/secret.txt", honey)
